@@ -1693,7 +1693,44 @@ def G26_any_of_indices(repo, clause, scope=ALL_LIB):
                           "`%s` in %s tests whether some element of `%s` is non-zero, but `%s` holds ROW INDICES (it is what `%s` removes): the single index 0 - the first row - is "
                           "falsy, so the case 'only row 0 is affected' is treated as 'nothing to do'" % (ast.unparse(t)[:40], fn.qualname, nm, nm, ast.unparse(idx_names[nm])[:50]),
                           slot="any-of-indices:%s:%s" % (fn.qualname, nm), positive="robust"))
-    obs.append(Ob("G26", clause, fns[0], fns[0].node, True, "%d functions in scope, %d truth tests of index collections flagged" % (len(fns), n), construct="index truthiness inventory", slot="inventory"))
+    # (b) np.any(data) / data.any() as the test of an `if`: asks whether some VALUE is non-zero.  For coordinates, charges, field tables - where 0 / 0.0 / "" are
+    #     ordinary values - that is not "is there any data" (len(x) > 0): an atom at the origin, an all-zero column count as absent
+    for fn in fns:
+        for t in fn.all_nodes():
+            if not isinstance(t, (ast.If, ast.IfExp, ast.While)):
+                continue
+            tst = t.test
+            while isinstance(tst, ast.UnaryOp) and isinstance(tst.op, ast.Not):
+                tst = tst.operand
+            arg = None
+            if isinstance(tst, ast.Call) and call_name(tst) in ("any", "all") and len(tst.args) == 1 and not tst.keywords and (
+                    isinstance(tst.func, ast.Name) or (isinstance(tst.func, ast.Attribute) and isinstance(tst.func.value, ast.Name) and tst.func.value.id in ("np", "numpy"))):
+                arg = tst.args[0]
+            elif isinstance(tst, ast.Call) and isinstance(tst.func, ast.Attribute) and tst.func.attr in ("any", "all") and not tst.args and not tst.keywords:
+                arg = tst.func.value
+            if arg is None:
+                continue
+            holder = fn
+            for f2 in repo.all_fns():
+                if f2.outer is fn and any(y is tst for y in ast.walk(f2.node)):
+                    holder = f2
+            kind = boolness(holder, arg)
+            if kind == "unknown" and isinstance(arg, ast.Name) and arg.id in holder.params:
+                used_as_data = any((isinstance(y, ast.Call) and call_name(y) == "len" and y.args and isinstance(y.args[0], ast.Name) and y.args[0].id == arg.id)
+                                   or (isinstance(y, ast.Subscript) and isinstance(y.value, ast.Name) and y.value.id == arg.id and isinstance(y.slice, ast.Tuple))
+                                   for y in ast.walk(holder.node))
+                used_as_mask = any(isinstance(y, ast.Subscript) and isinstance(y.slice, ast.Name) and y.slice.id == arg.id for y in ast.walk(holder.node))
+                if used_as_data and not used_as_mask:
+                    kind = "value"
+            if kind != "value":
+                continue
+            n += 1
+            obs.append(Ob("G26", clause, holder, tst, False,
+                          "`%s` in %s is used as a presence test, but it asks whether some VALUE of `%s` is non-zero: zeros are ordinary data there (an atom at the origin, a zero "
+                          "charge, a column of 0 entries), so existing data is treated as absent - the emptiness test is len(...) > 0" % (
+                              ast.unparse(tst)[:40], holder.qualname, ast.unparse(arg)[:30]),
+                          slot="any-of-data:%s:%s" % (holder.qualname, ast.unparse(arg)[:30]), positive="robust"))
+    obs.append(Ob("G26", clause, fns[0], fns[0].node, True, "%d functions in scope, %d truth tests of index collections / data arrays flagged" % (len(fns), n), construct="index truthiness inventory", slot="inventory"))
     return obs
 
 
